@@ -89,6 +89,11 @@ def _socket_job(args):
             # plain read(), which discards descriptors arriving alongside (what happens to descriptors is C15's subject)
             pre = b"BEGIN\r\n" + msgs[0] if fdmsg is not None else b""
             stream = (b"" if fdmsg is not None else b"BEGIN\r\n") + b"".join(msgs[1:] if fdmsg is not None else msgs)
+            # a stream that turns invalid: everything complete before the first invalid message is delivered, however the bytes were cut
+            # (and the sender is dropped)
+            turns_invalid = fdmsg is None and rng.random() < 0.3
+            if turns_invalid:
+                stream += rng.choice([b"X", b"l\x09", b"l\x01\x00\x02"]) + bytes(rng.getrandbits(8) for _ in range(rng.choice([15, 47, 200])))
             if fdmsg is not None:
                 msgs = msgs[1:]; fdmsg -= 1; fdset = [x - 1 for x in fdset]
             n = len(stream)
@@ -151,7 +156,8 @@ def _socket_job(args):
                 R.fds = []
                 out.append({"kind": kind, "cuts": cuts[:12], "all_cuts": cuts, "pre": pre.hex(), "fd_at": starts[fdmsg] if fdmsg is not None else None,
                             "ncuts": len(cuts), "bytes": n, "pause": pause, "pause_at": pause_at, "want": [t.decode() for t in tokens],
-                            "got": [t.decode() if isinstance(t, bytes) else str(t) for t in seen], "dropped": dropped,
+                            "got": [t.decode() if isinstance(t, bytes) else str(t) for t in seen], "dropped": dropped != turns_invalid,
+                            "turns_invalid": turns_invalid,
                             "fds_want": len(fdset), "fds_got": nfd, "fd_starts": [starts[w] for w in fdset], "stream": stream.hex(), "receiver": R.unique})
             finally:
                 S.close()
@@ -272,7 +278,7 @@ def replay_socket(case):
         seen = [m.body[0].decode() for m in got_r if m is not None and m.mtype == 4 and m.get(3) == b"S"]
         dropped = got_s is None or got_s[-1] is None
         print("replay C11: receiver got %d of %d messages, sender dropped=%s" % (len(seen), len(case["want"]), dropped))
-        return 1 if (seen != case["want"] or dropped) else 0
+        return 1 if (seen != case["want"] or dropped != bool(case.get("turns_invalid"))) else 0
     finally:
         d.stop()
 
